@@ -19,10 +19,10 @@ macro_rules! belt_core_case {
             let mut ks2 = [0u8; 3 * B];
             spec::belt_ks(c.p(), s0, pos.wrapping_add(NB as u128), &mut ks2);
             let mut core = belt_ctr::BeltCtrCore::inner_iv_init(c.clone(), blk::<U16>(&iv));
-            assert!(core.get_block_pos() == 0);
+            assert!(core.get_block_pos() as u128 == 0);
             assert!(core.remaining_blocks().is_none());
-            core.set_block_pos(pos);
-            assert!(core.get_block_pos() == pos, "get_block_pos after set_block_pos");
+            core.set_block_pos(pos as _);
+            assert!(core.get_block_pos() as u128 == (pos) as u128, "get_block_pos after set_block_pos");
             let want_rem = u128::MAX - pos;
             let rem = core.remaining_blocks();
             if want_rem <= usize::MAX as u128 {
@@ -38,7 +38,7 @@ macro_rules! belt_core_case {
                 assert!(buf[i] == orig[i] ^ ks[i], "keystream block differs from E(s0 + i + 1)");
                 i += 1;
             }
-            assert!(core.get_block_pos() == pos + NB as u128);
+            assert!(core.get_block_pos() as u128 == (pos + NB as u128) as u128);
             // single-block core API: in place, then buffer-to-buffer into a dirty block
             if pos <= u128::MAX - NB as u128 - 4 {
                 let one: [u8; B] = kani::any();
@@ -59,7 +59,7 @@ macro_rules! belt_core_case {
                     assert!(raw[j] == ks2[2 * B + j], "write_keystream_block differs");
                     j += 1;
                 }
-                assert!(core.get_block_pos() == pos + NB as u128 + 3);
+                assert!(core.get_block_pos() as u128 == (pos + NB as u128 + 3) as u128);
             }
             kani::cover!(true);
             kani::cover!(s0 > u128::MAX - 2 && pos == 0); // s wraps through 2^128 inside the run
